@@ -491,6 +491,9 @@ pub fn gen_proxy(seed: u64, prop: &str, tier: &str) -> Value {
     if prop == "C01" && r.chance(1, 5) {
         return gen_policy_swap_storm(seed, &mut r, prop, tier);
     }
+    if prop == "C01" && r.chance(1, 5) {
+        return gen_port_scarce(seed, &mut r, procs, tier);
+    }
     if prop == "C02" {
         return gen_c02(seed, &mut r, procs, o, dup_names, tier);
     }
@@ -523,6 +526,66 @@ pub fn gen_proxy(seed: u64, prop: &str, tier: &str) -> Value {
         "knobs": knobs, "procs": procs, "users": users_json(), "steps": steps, "oracles": oracles,
         "config": {"pollKeyStatusIntervalInSeconds": 1 + r.below(15)}, "settle_ms": 3000,
         "faulty": false
+    })
+}
+
+/// Few ephemeral ports: source ports are reused at once. Attributed connections end in every way a connection can end
+/// (orderly, reset or closed in the middle of a request, garbage instead of a request, idle keep-alive dropped) and direct
+/// connections to the listener follow on the same ports: whatever the earlier connection left behind must not attribute
+/// the later one.
+fn gen_port_scarce(seed: u64, r: &mut Rng, procs: Value, tier: &str) -> Value {
+    let nprocs = procs.as_array().unwrap().len() as u64;
+    let nports = 1 + r.below(3);
+    let mut steps = Vec::new();
+    let doc = if r.chance(1, 2) { doc_v1("wireserver") } else { doc_v2(true, Some(json!({"imds": grant_all_item("imds-0", *r.pick(&["audit", "enforce"]), "allow", None), "wireserver": grant_all_item("ws-0", "audit", "allow", None)}))) };
+    steps.push(json!({"t": "doc", "doc": doc}));
+    steps.push(json!({"t": "wait_polls", "n": 2, "max_s": 200}));
+    let mut tokn = 0u64;
+    let rounds = 3 + r.below(if tier == "thorough" { 10 } else { 6 });
+    for _ in 0..rounds {
+        let mut conns = Vec::new();
+        // one connection at a time per port, so that reuse is sequential and every connect finds a free port
+        let dst = *r.pick(&["imds", "wire", "imds", "direct", "direct"]);
+        let p = if dst == "wire" { 0 } else { r.below(nprocs) };
+        tokn += 1;
+        let target = format!("{}?n={}", r.pick(&["/metadata/instance", "/machine", "/metadata/identity/oauth2/token"]), tokn);
+        let mut req = json!({"method": *r.pick(&["GET", "POST"]), "target": target, "headers": [["Host", host_name_of(dst)], ["Metadata", "true"]], "tok": format!("t{}", tokn)});
+        if req["method"] == "POST" {
+            req["body"] = json!({"len": 1 + r.below(2000), "seed": r.next() >> 8, "ascii": true});
+        }
+        let mut c = json!({"proc": p, "dst": dst, "start_ms": 0, "pipeline": false, "gap_ms": 0, "reqs": [req]});
+        if dst != "direct" {
+            match r.below(6) {
+                0 => c["close"] = json!(format!("reset_after_send:{}:{}", *r.pick(&[0u64, 1, 5, 40]), r.below(30))),
+                1 => c["close"] = json!(format!("fin_after_send:{}:{}", *r.pick(&[0u64, 1, 5, 40]), r.below(30))),
+                2 => {
+                    // a request that is never completed: the head promises a body that does not come
+                    c["reqs"][0]["method"] = json!("POST");
+                    c["reqs"][0]["headers"] = json!([["Host", host_name_of(dst)], ["Content-Length", "500"]]);
+                    c["reqs"][0]["declared_only"] = json!(true);
+                    c["reqs"][0]["body"] = Value::Null;
+                    c["close"] = json!(format!("reset_after_send:{}:0", *r.pick(&[5u64, 50, 400])));
+                }
+                3 => {
+                    // not HTTP at all
+                    c["reqs"][0]["method"] = json!("\u{1}\u{2}GARBAGE");
+                }
+                _ => {}
+            }
+        }
+        conns.push(c);
+        steps.push(json!({"t": "clients", "conns": conns}));
+        if r.chance(1, 3) {
+            steps.push(json!({"t": "sleep", "ms": *r.pick(&[1u64, 20, 300])}));
+        }
+    }
+    steps.push(json!({"t": "sleep", "ms": 2000}));
+    let mut knobs = gen_knobs(r, true);
+    knobs["net.connect_lat_max_ms"] = json!(0);
+    json!({
+        "scenario": "proxy:C01", "seed": seed, "family": "proxy", "prop": "C01", "variant": "port_scarce", "ports": [40000, nports],
+        "knobs": knobs, "procs": procs, "users": users_json(), "steps": steps, "oracles": ["C01", "C03"],
+        "config": {"pollKeyStatusIntervalInSeconds": 15}, "settle_ms": 3000, "faulty": false
     })
 }
 
